@@ -212,6 +212,8 @@ pub const ZC_HOLDSFAKE: bool = <HoldsFake as SerializeInner>::IS_ZERO_COPY;
 pub const ZC_VEC_FAKE: bool = <Vec<FakeZero> as SerializeInner>::IS_ZERO_COPY;
 pub const ZC_ARR_FAKE: bool = <[FakeZero; 2] as SerializeInner>::IS_ZERO_COPY;
 pub const ZC_ZNAMED_ARR: bool = <[ZNamed; 2] as SerializeInner>::IS_ZERO_COPY;
+pub const ZC_TUPLE_FAKE: bool = <(FakeZero, FakeZero) as SerializeInner>::IS_ZERO_COPY;
+pub const ZC_TUPLE_ZNAMED: bool = <(ZNamed, ZNamed, ZNamed) as SerializeInner>::IS_ZERO_COPY;
 
 // ---------------------------------------------------------------- parameter names / order variations (declaration order is not alphabetical)
 #[derive(Epserde, Debug, Clone, PartialEq)]
